@@ -76,7 +76,14 @@ def run_part(v, tier):
     docs.sort(key=lambda d: json.dumps([d["form"], d["lines"]]))
     rnd = random.Random(SEED)
     jobs = []
+    seen = set()
     for d in docs:
+        key = json.dumps([d["form"], d["lines"]])
+        if key in seen:
+            continue
+        seen.add(key)
+        if not d["term"] and rnd.random() > 0.08:
+            continue                       # documents that run to the end of the input: a sample is enough (one recorded finding covers them)
         h = int(hashlib.sha1(json.dumps([d["form"], d["lines"]]).encode()).hexdigest()[:6], 16)
         ctxs = CONTEXTS if tier != "quick" or len(d["lines"]) < 2 else [CONTEXTS[h % 7], CONTEXTS[(h // 7) % 7]]
         if tier != "quick" and len(d["lines"]) == 3:
